@@ -198,6 +198,12 @@ static void good_copy_postinc(unsigned char *d, const unsigned char *s) { while 
 static void bad_OUT6_overtake(char *s) { char *w = s; while (*s) { w[0] = *s; w[1] = ' '; w += 2; s++; } *w = 0; }
 static void good_inplace(char *s) { char *w = s; while (*s) { if (*s != ' ') { *w++ = *s; } s++; } *w = 0; }
 
+/* ESC1 */
+char *bad_ESC1_raw_key(const char *path, const cJSON *member) { char *v = (char*)cJSON_malloc(strlen(path) + strlen(member->string) + 2); sprintf(v, "%s/%s", path, member->string); return v; }
+static void h_join(char *v, const char *path, const char *token) { sprintf(v, "%s/%s", path, token); }
+char *bad_ESC1_via_helper(const char *path, const cJSON *member) { char *v = (char*)cJSON_malloc(strlen(path) + strlen(member->string) + 2); h_join(v, path, member->string); return v; }
+char *good_token(const char *path) { char *v = (char*)cJSON_malloc(strlen(path) + 3); h_join(v, path, "-"); return v; }
+
 /* OUT7 */
 char *bad_OUT7_short(const char *a, const char *b) { char *v = (char*)cJSON_malloc(strlen(a) + strlen(b) + 1); sprintf(v, "%s/%s", a, b); return v; }
 char *bad_OUT7_wrong_key(const unsigned char *path, const unsigned char *k, const unsigned char *other)
